@@ -269,9 +269,10 @@ fn gen_term(r: &mut Rng, s: &SPdb) -> Tm {
         13 => Tm::An(r.pick(ATOM_NAMES).to_string()),
         14 => Tm::El(*r.pick(&[1usize, 6, 7, 8, 12, 16])),
         15 => Tm::Bf(a.map_or(0, |a| a.b)),
-        16 => { let x = a.map_or(0, |a| a.b); Tm::Bfr(x - r.range(0, 30) * 10_000, x + r.range(0, 30) * 10_000) }
+        // range ends coincide with a value of the structure in a third of the draws each (closed intervals)
+        16 => { let x = a.map_or(0, |a| a.b); Tm::Bfr(x - if r.chance(1, 3) { 0 } else { r.range(0, 30) * 10_000 }, x + if r.chance(1, 3) { 0 } else { r.range(0, 30) * 10_000 }) }
         17 => Tm::Oc(a.map_or(1_000_000, |a| a.occ)),
-        18 => { let x = a.map_or(0, |a| a.occ); Tm::Ocr(x - r.range(0, 30) * 10_000, x + r.range(0, 30) * 10_000) }
+        18 => { let x = a.map_or(0, |a| a.occ); Tm::Ocr(x - if r.chance(1, 3) { 0 } else { r.range(0, 30) * 10_000 }, x + if r.chance(1, 3) { 0 } else { r.range(0, 30) * 10_000 }) }
         19 => Tm::Bb,
         20 => Tm::Sc,
         _ => Tm::Het,
